@@ -481,7 +481,32 @@ class BattApp(KVApp):
                 else:
                     m[fid] = (cons.index(owner), nm)
             self.idmap = m
+            self.param_names = {}
+            import inspect
+            for ci, c in enumerate(cons):
+                for nm in dir(type(c)):
+                    f = getattr(type(c), nm, None)
+                    if callable(f) and not nm.startswith('_SyncObj'):
+                        try:
+                            self.param_names[(ci, nm)] = [p for p in inspect.signature(f).parameters][1:]
+                        except (TypeError, ValueError):
+                            pass
         return node
+
+    def decode(self, cmd):
+        """Keyword arguments of a battery call are put back into positional order for the reference."""
+        d = KVApp.decode(self, cmd)
+        if d[0] == 'regular' and d[3] and isinstance(d[1], tuple):
+            names = getattr(self, 'param_names', {}).get(d[1])
+            if names:
+                args = list(d[2])
+                for n in names[len(args):]:
+                    if n in d[3]:
+                        args.append(d[3][n])
+                    else:
+                        break
+                return ('regular', d[1], tuple(args), {})
+        return d
 
     def submit_other(self, world, host, args, cb):
         # args = ['batt', tag, kind, name, *jsonargs]
@@ -489,8 +514,25 @@ class BattApp(KVApp):
         a = unjson(args[4:])
         cons = priv(host.node, 'SyncObj', 'consumers')
         obj = cons[KINDS.index(kind)]
-        getattr(obj, name)(*[_copy(x) for x in a], callback=cb)
+        pos, kw = split_call(obj, name, [_copy(x) for x in a], tag)
+        getattr(obj, name)(*pos, callback=cb, **kw)
         return 'ok'
+
+
+def split_call(obj, name, args, tag):
+    """The same call in another legal form: one call in three passes its trailing arguments by keyword (all but the
+    first, or all of them), using the parameter names of the battery's method."""
+    import inspect
+    if tag % 3 == 0 or not args:
+        return args, {}
+    try:
+        names = [p for p in inspect.signature(getattr(type(obj), name)).parameters][1:]
+    except (TypeError, ValueError):
+        return args, {}
+    if len(names) < len(args) or any(n.startswith('_') or n in ('args', 'kwargs') for n in names[:len(args)]):
+        return args, {}
+    k = 1 if (tag % 3 == 1 and len(args) > 1) else 0
+    return args[:k], dict(zip(names[k:len(args)], args[k:]))
 
 
 class BattOracle(RaftOracle):
